@@ -428,12 +428,62 @@ def tie_messages(case: dict[str, Any]) -> dict[str, Any]:
     return res
 
 
+def tie_accept_loop(case: dict[str, Any]) -> dict[str, Any]:
+    """Real TypeChecker.accept_loop called on a stand-in `self`: checking the body is a scripted oracle that sets the number of
+    partial types, binder.last_pop_changed and len(widened_vars)."""
+    import contextlib
+    from mypy.checker import TypeChecker
+    from mypy.errors import Errors
+    from mypy.options import Options
+    script = case["script"]
+    calls: list[list[int]] = []
+
+    class PT:
+        map: dict[int, None] = {}
+
+    class Binder:
+        last_pop_changed = False
+        def frame_context(self, **kw: Any) -> Any: return contextlib.nullcontext()
+
+    class Msg:
+        def __init__(self) -> None: self.errors = Errors(Options())
+        def iteration_dependent_errors(self, ie: Any) -> None: pass
+
+    class Fake:
+        pass
+    f = Fake()
+    pt = PT()
+    pt.map = {i: None for i in range(case["po"])}
+    f.binder, f.msg, f.partial_types, f.widened_vars = Binder(), Msg(), [pt], [0] * case["wo"]  # type: ignore[attr-defined]
+
+    def accept(body: Any) -> None:
+        k = len(calls)
+        if k > 200:
+            raise _Abort()
+        calls.append([k + 1, len(pt.map)])
+        pn, ch, wn = script[k]
+        pt.map = {i: None for i in range(pn)}
+        f.binder.last_pop_changed = bool(ch)  # type: ignore[attr-defined]
+        f.widened_vars = [0] * wn  # type: ignore[attr-defined]
+    f.accept = accept  # type: ignore[attr-defined]
+    try:
+        TypeChecker.accept_loop(f, object())  # type: ignore[arg-type]
+        out = "Done"
+    except RuntimeError as e:
+        out = "RaisedRuntimeError" if "Too many iterations" in str(e) else "Other:" + repr(e)
+    except _Abort:
+        out = "Unbounded"
+    except IndexError:
+        out = "ScriptExhausted"
+    return {"outcome": out, "calls": calls}
+
+
 def tie_main() -> None:
     data = json.load(sys.stdin)
     cache_dir = tempfile.mkdtemp(prefix="c20-tie-cache-")
     out: dict[str, list[Any]] = {}
     try:
-        for kind, fn in (("top", tie_semanal_top), ("fn", tie_semanal_fn), ("prop", tie_propagate), ("msg", tie_messages)):
+        for kind, fn in (("top", tie_semanal_top), ("fn", tie_semanal_fn), ("prop", tie_propagate), ("msg", tie_messages), ("al", tie_accept_loop)):
             out[kind] = []
             for c in data.get(kind, []):
                 try:
@@ -1491,7 +1541,7 @@ def command_of(job: dict[str, Any]) -> str:
 
 CASES_HEADER = r"""From Coq Require Import List Arith Bool ZArith.
 From Gen Require Import Bounds.
-From C20 Require Import Model.
+From C20 Require Import Model AcceptLoop.
 Import ListNotations.
 Definition oc (o : Outcome) : nat := match o with Done => 0 | ReportedHang => 1 | AssertFail => 2 | RaisedRuntimeError => 3 end.
 Definition b2n (b : bool) : nat := if b then 1 else 0.
@@ -1513,6 +1563,9 @@ Definition scripted_pr (script : list (list nat)) (dflt : list nat) (st : nat * 
   ((S (fst st), trig :: snd st), nth (fst st) script dflt).
 Definition run_pr script dflt trig errs k := match propagate (nat * list (list nat)) nat (scripted_pr script dflt) pr_fuel (0, []) trig errs with
   | Some ((o, s), n) => [oc o; n; length (snd (pr_st _ _ s))] :: firstn k (rev (snd (pr_st _ _ s))) | None => [[9]] end.
+Definition scripted_al (script : list (nat * bool * nat)) (st i po : nat) : nat * (nat * bool * nat) := (st, nth (i - 1) script (po, false, 0)).
+Definition run_al script po wo := match accept_loop nat (scripted_al script) al_fuel 0 po wo with
+  | Some ((o, s), n) => [[oc o; n]; flat_map (fun p => [fst p; snd p]) (rev (al_calls _ s))] | None => [[9]] end.
 Definition zn (z : Z) : nat := Z.to_nat (z + 10).
 Definition on (o : option nat) : nat := match o with None => 0 | Some x => S x end.
 Definition rl {A} (f : A -> list nat) (r : R A) : list nat := match r with Ok a => 0 :: f a | IndexError => [1] | OutOfFuel => [2] end.
@@ -1630,7 +1683,26 @@ def stage_C(ctx: vlib.Ctx) -> None:
         pr_cases.append({"triggered": sorted(rng.sample(range(6), rng.randint(0, 3))), "errs": sorted(rng.sample(range(6), rng.randint(0, 2))),
                          "script": [sorted(rng.sample(range(6), rng.choice([0, 1, 1, 2, 3]))) for _ in range(k)], "default": []})
     msg_cases = [gen_msg_case(rng.r) for _ in range(ctx.n(300, 2500))]
-    payload = {"top": top_cases, "fn": fn_cases, "ck": ck_cases, "prop": pr_cases, "msg": msg_cases}
+    al_entries = [(a, b, c) for a in (0, 1) for b in (False, True) for c in (0, 1)]
+    al_scripts: list[list[tuple[int, bool, int]]] = []
+    for a in al_entries:
+        al_scripts.append([a])
+        for b in al_entries:
+            al_scripts.append([a, b])
+            for c in al_entries:
+                al_scripts.append([a, b, c])
+    al_scripts += [[(0, True, 0)] * 30, [(i % 2, False, 0) for i in range(30)], [(0, False, i) for i in range(30)], [(i % 2, True, i) for i in range(30)],
+                   [(i % 2, False, 0) for i in range(17)], [(i % 2, False, 0) for i in range(18)], [(i % 2, False, 0) for i in range(19)],
+                   [(0, True, 0)] * 2 + [(0, False, 0)], [(0, True, 0)] * 3, [(0, False, 1)], [(0, False, 1), (0, False, 2)]]
+    for _ in range(ctx.n(150, 1500)):
+        k = rng.randint(1, 22)
+        pf, pc, pw = rng.random(), rng.random(), rng.random()
+        al_scripts.append([(rng.randint(0, 2) if rng.random() < pf else 0, rng.random() < pc, rng.randint(0, 2) if rng.random() < pw else 0) for _ in range(k)])
+    al_cases = []
+    for sc in al_scripts:
+        last = sc[-1]
+        al_cases.append({"po": rng.choice([0, 0, 1, 2]), "wo": rng.choice([0, 0, 1]), "script": sc + [(last[0], False, last[2])] * (26 - min(len(sc), 25))})
+    payload = {"top": top_cases, "fn": fn_cases, "ck": ck_cases, "prop": pr_cases, "msg": msg_cases, "al": al_cases}
     p = subprocess.run([vlib.PY, os.path.abspath(__file__), "--tie"], input=json.dumps(payload), text=True, capture_output=True,
                        env=vlib.py_env(), timeout=3000)
     if p.returncode != 0:
@@ -1662,6 +1734,9 @@ def stage_C(ctx: vlib.Ctx) -> None:
         exprs.append(f"run_pr {sc} {coq_list([str(x) for x in c.get('default', [])])} {coq_list([str(x) for x in c['triggered']])} "
                      f"{coq_list([str(x) for x in c['errs']])} {k}")
         tag.append(("prop", i))
+    for i, c in enumerate(al_cases):
+        exprs.append("run_al " + coq_list([f"({a}, {cb(b)}, {w})" for a, b, w in c["script"]]) + f" {c['po']} {c['wo']}")
+        tag.append(("al", i))
     for i, c in enumerate(msg_cases):
         L = coq_list([coq_errinfo(j, e) for j, e in enumerate(c["errors"])])
         exprs.append(f"msg_case {cb(c['show_ctx'])} {L} {c['nlines']}")
@@ -1700,6 +1775,12 @@ def stage_C(ctx: vlib.Ctx) -> None:
                 mism(kind, i, "outcome/call trace differ", c, m, r)
             stats[f"{kind}:{r['outcome']}"] = stats.get(f"{kind}:{r['outcome']}", 0) + 1
             nontriv += r["outcome"] != "Done" or len(r["calls"]) > len(c.get("scc", [0]))
+        elif kind == "al":
+            calls = [x for it_, po_ in r["calls"] for x in (it_, po_)]
+            if m == [[9]] or m[0][0] != OUTC.get(r["outcome"], 99) or m[1] != calls or m[0][1] != len(r["calls"]):
+                mism(kind, i, "accept_loop outcome / (iter, partials_old) trace differ", al_cases[i], m, r)
+            stats[f"al:{r['outcome']}"] = stats.get(f"al:{r['outcome']}", 0) + 1
+            nontriv += len(r["calls"]) > 1
         elif kind == "ck":
             calls = [x for p_, n_ in r["calls"] for x in (p_, n_)]
             if m == [[9]] or r["outcome"] != "Done" or m[0][0] != 0 or m[1] != calls or (m[0][1] if m[0][1] > 1 else 0) != r["second_pass_calls"]:
@@ -1760,7 +1841,7 @@ def stage_C(ctx: vlib.Ctx) -> None:
                 mism(kind, i, "pretty IndexError does not coincide with 'error line beyond the last source line'", c, m, r)
     ctx.add("evaluations", len(exprs))
     ctx.add("traces_validated_against_impl", len(exprs) - bad)
-    ctx.cov["tie_cases"] = {"top": len(top_cases), "fn": len(fn_cases), "ck": len(ck_cases), "prop": len(pr_cases), "msg": len(msg_cases)}
+    ctx.cov["tie_cases"] = {"top": len(top_cases), "fn": len(fn_cases), "ck": len(ck_cases), "prop": len(pr_cases), "msg": len(msg_cases), "al": len(al_cases)}
     ctx.cov["tie_outcomes"] = dict(sorted(stats.items()))
     ctx.cov["tie_nontrivial"] = nontriv
     ctx.sample({"tie": "top", "case": top_cases[700 % len(top_cases)]["script"][:4], "impl": real["top"][700 % len(top_cases)]})
@@ -2852,6 +2933,7 @@ def run(ctx: vlib.Ctx) -> None:
         "contract (checked syntactically by T20 on every run + driven through the real guard in stage C): defer_node is only called under pass_num < last_pass",
         "contract (monitored by the --pretty mutant runs): a reported error line is <= number of lines read back from the file (format_messages_default)",
         "propagate_changes_using_dependencies: convergence before MAX_ITER is NOT proved (the report is an uncaught RuntimeError)",
+        "contract (monitored by stage S: no `Too many iterations when checking a loop` seen): in checker.accept_loop the number of partial types no longer changes once iter > 3",
         "time limits are CPU seconds of the mypy process (60 s per file), so a loaded machine cannot raise a false hang",
         "oracle for stage S reads stdout/stderr text (INTERNAL ERROR, Traceback) and exit status; key = exception type + innermost mypy frame",
     ]
